@@ -74,7 +74,9 @@ def bearing(wind_dir, mol, closure, grid, ref, wind_speed, zm, via="single"):
                    "ref_lat": ref_lat, "ref_lon": ref_lon},
         "towers": [{"name": "T", "lat": float(lat), "lon": float(lon), "z_m": zm}],
         "met": {"ustar": 0.1 * wind_speed, "mol": mol, "wind_speed": wind_speed,
-                "wind_dir": [wind_dir, wind_dir] if via == "series-cached" else wind_dir},
+                # (the configurations of a sweep start from ANOTHER direction: whatever the first one derived from its own
+                # forcing must not survive into the one under test)
+                "wind_dir": [wind_dir, wind_dir] if via == "series-cached" else ((wind_dir + 77.0) % 360.0 if via in ("rebuilt", "reassigned") else wind_dir)},
         "solver": {"closure": closure, "footprint": True},
         "parallel": {"use_cache": via == "series-cached"},
     })
